@@ -264,8 +264,14 @@ impl<T: Actor> ActorRef<T> {
                          or restructure actor dependencies."
                     );
                 }
-                graph.insert(caller.id, callee);
-                Some(crate::WaitForGuard(caller.id))
+                static ASK_TOKENS: std::sync::atomic::AtomicU64 =
+                    std::sync::atomic::AtomicU64::new(0);
+                let token = ASK_TOKENS.fetch_add(1, std::sync::atomic::Ordering::Relaxed);
+                graph.insert(caller.id, (callee, token));
+                Some(crate::WaitForGuard {
+                    caller: caller.id,
+                    token,
+                })
             } else {
                 None
             }
@@ -274,7 +280,14 @@ impl<T: Actor> ActorRef<T> {
         let (reply_tx, reply_rx) = oneshot::channel();
         let envelope = MailboxMessage::Envelope {
             payload: Box::new(msg),
-            reply_channel: Some(reply_tx),
+            reply_channel: Some(crate::ReplySender {
+                tx: reply_tx,
+                #[cfg(feature = "deadlock-detection")]
+                edge: _guard.as_ref().map(|guard| crate::WaitForGuard {
+                    caller: guard.caller,
+                    token: guard.token,
+                }),
+            }),
             actor_ref: self.clone(), // Include the actor ref for context
         };
 
@@ -652,7 +665,11 @@ impl<T: Actor> ActorRef<T> {
         let (reply_tx, reply_rx) = oneshot::channel();
         let envelope = MailboxMessage::Envelope {
             payload: Box::new(msg),
-            reply_channel: Some(reply_tx),
+            reply_channel: Some(crate::ReplySender {
+                tx: reply_tx,
+                #[cfg(feature = "deadlock-detection")]
+                edge: None, // blocking callers are not tracked
+            }),
             actor_ref: self.clone(), // Include the actor ref for context
         };
 
